@@ -162,3 +162,17 @@ SAMPLE_GRAPHS = [
                  ["fleeting", ["TrigonalBipyramidal", [1, 4, 5, 2, 3, N], 1]]]]]),
     _g("SCRG", [(1, 6), (2, 8)], [(1, 2, "none")]),
 ]
+_eth = [(1, 1), (2, 9), (3, 6), (4, 6), (5, 1), (6, 17)]
+_ethb = [(1, 3, "none"), (2, 3, "none"), (3, 4, "none"), (4, 5, "none"), (4, 6, "none")]
+_oct = [(1, 27), (2, 1), (3, 9), (4, 17), (5, 35), (6, 8), (7, 7)]
+# every descriptor class with every specified parity, static and inside stereo changes
+for _p in (1, -1):
+    SAMPLE_GRAPHS.append(_g("SMG", _eth, _ethb, bst=[[3, 4, ["AtropBond", [1, 2, 3, 4, 5, 6], _p]]]))
+    SAMPLE_GRAPHS.append(_g("SMG", _oct, [(1, k, "none") for k in range(2, 8)], ast=[[1, ["Octahedral", [1, 2, 3, 4, 5, 6, 7], _p]]]))
+    SAMPLE_GRAPHS.append(_g("SMG", _oct[:6], [(1, k, "none") for k in range(2, 7)],
+                            ast=[[1, ["TrigonalBipyramidal", [1, 2, 3, 4, 5, 6], _p]]]))
+    SAMPLE_GRAPHS.append(_g("SMG", _star, _sb, ast=[[1, ["Tetrahedral", [1, 2, 3, 4, 5], _p]]]))
+    SAMPLE_GRAPHS.append(_g("SCRG", _eth, [(1, 3, "none"), (2, 3, "none"), (3, 4, "formed"), (4, 5, "none"), (4, 6, "none")],
+                            bch=[[3, 4, [["formed", ["AtropBond", [1, 2, 3, 4, 5, 6], _p]], ["fleeting", ["PlanarBond", [1, 2, 3, 4, 5, 6], 0]]]]]))
+SAMPLE_GRAPHS.append(_g("SMG", _star, _sb, ast=[[1, ["Tetrahedral", [1, 2, 3, 4, 5], model.NOPAR]]]))
+SAMPLE_GRAPHS.append(_g("SMG", _eth, _ethb, bst=[[3, 4, ["PlanarBond", [1, N, 3, 4, 5, 6], 0]]]))
